@@ -75,6 +75,12 @@ func execHmacHistory(o *out, f [][]int) []int {
 				if !bytes.Equal(sum, want) {
 					o.fail("hmac-differs-from-crypto/hmac", line())
 				}
+				// the caller owns what Sum returned: scribbling over it (up to its capacity) changes nothing that
+				// a later Sum, Write or Reset of this object sees
+				sum = sum[:cap(sum)]
+				for k := range sum {
+					sum[k] ^= 0xA5
+				}
 			case 4:
 				h.Reset()
 				written = nil
